@@ -3,6 +3,7 @@ import Guard.Judge.C02
 import Guard.Spec.Spec
 import Guard.Model.Cli
 import Guard.Model.Report
+import Guard.Model.Merge
 import Lean.Data.Json
 /-
   guard_model — line-protocol driver for the executable model.
@@ -406,6 +407,25 @@ def handle (j : Json) : Json :=
         ("not_applicable", Json.arr (r.notApplicable.map sOf).toArray),
         ("not_compliant", Json.arr (r.notCompliant.map crJson).toArray)]
     | none => Json.mkObj [("id", id), ("report", Json.null)]
+  | "merge_eval" =>
+    -- validate with input-parameter files: merge (parameters left to right, then the data file), evaluate
+    let env := mkEnv (jfield j "env")
+    let file := parseRulesFile (jfield j "ast")
+    let data := parsePV (jfield j "doc")
+    let params := (jarr (jfield j "params")).map parsePV
+    let docO : Outcome PV := match mergeParams params with
+      | .ok p => effectiveDoc p data
+      | .err e => .err e | .panic s => .panic s | .outOfFuel => .outOfFuel
+    match docO with
+    | .ok doc =>
+      match runFile env 100000 file doc with
+      | .ok (s, t) => Json.mkObj [("id", id), ("status", Json.str s.toStr),
+          ("rules", Json.arr ((ruleStatuses t).map fun (n, s) => Json.arr #[sOf n, Json.str s.toStr]).toArray)]
+      | .err e => Json.mkObj [("id", id), ("err", Json.str e.toStr)]
+      | .panic s => Json.mkObj [("id", id), ("panic", Json.str (siteName s))]
+      | .outOfFuel => Json.mkObj [("id", id), ("outOfFuel", true)]
+    | .err e => Json.mkObj [("id", id), ("merge_err", Json.str e.toStr)]
+    | _ => Json.mkObj [("id", id), ("merge_err", "panic")]
   | "consistent" =>
     let t := parseRec (jfield j "tree")
     let ok := Consistent t
